@@ -25,7 +25,9 @@ RULE = ("the pipelines of C02 plus extra nullary / all-default / all-bound funct
         "single output, pairs, random larger sets) x provided name sets I (exact root cut, every arg combination of an "
         "output in S, interior-only, mixed, with surplus, with a missing name, empty) x {subpipeline(I, S), "
         "map(output_names=S), map(auto_subpipeline=True), plain map} + two maps into ONE run folder (second with "
-        "cleanup=False: same inputs, valid cuts with a changed intermediate, changed / fewer roots); scalar values, "
+        "cleanup=False: same inputs, valid cuts with a changed intermediate, changed / fewer roots) + carried-default "
+        "requests (the only declarer of a shared root default is dropped while a kept function has an explicitly set "
+        "default that differs from / is absent in its signature and is not provided); scalar values, "
         "storage='dict' (file storage for the two-run cases), parallel=False; "
         "non-trivial = >= 2 functions; distinct by (kind, pipeline, I, S)")
 ASSUMPTIONS = list(c02.ASSUMPTIONS) + ["pipelines without MapSpecs (scalar values); storage='dict'; parallel=False",
@@ -234,6 +236,86 @@ def _two_run_cases(rng, pd, roots, outs):
     return out
 
 
+def _needed_roots(pd, S):
+    """Root-argument names read (through unbound parameters) by the functions S depends on; nothing is cut."""
+    prod = {o: f for f in pd["funcs"] for o in f["outs"]}
+    seen, stack, roots = set(), [o for o in S if o in prod], []
+    while stack:
+        f = prod[stack.pop()]
+        if f["name"] in seen:
+            continue
+        seen.add(f["name"])
+        for cur, _ in f["params"]:
+            if cur in f["bound"]:
+                continue
+            if cur in prod:
+                stack.append(cur)
+            elif cur not in roots:
+                roots.append(cur)
+    return roots
+
+
+def _add_param(f, cur, sig=None, explicit=None):
+    """f with one more parameter `cur` (placed so that signature defaults stay trailing)."""
+    f = dict(f)
+    params = list(f["params"])
+    if sig is not None:
+        params.append([cur, cur])
+        f["sigd"] = dict(f["sigd"], **{cur: sig})
+    else:
+        k = len(params)
+        while k > 0 and params[k - 1][1] in f["sigd"]:
+            k -= 1
+        params.insert(k, [cur, cur])
+    f["params"] = params
+    if explicit is not None:
+        f["defs"] = dict(f["defs"], **{cur: explicit})
+    return f
+
+
+def _carried_default_cases(rng, pd):
+    """Requests in which (a) the ONLY function that declares the default of a root argument `cc` is dropped while a kept
+    function still reads `cc` (the sub-pipeline has to carry that default over) and (b) a kept function has an
+    explicitly set default (PipeFunc(defaults=...)) for an argument `kk` that is not provided - different from its
+    signature default, or without any signature default.  The full pipeline's values are demanded as everywhere."""
+    funcs = [dict(f) for f in pd["funcs"]]
+    names = {c for f in funcs for c, _ in f["params"]} | {o for f in funcs for o in f["outs"]}
+    if {"cc", "kk", "odc"} & names or any(f["name"] == "dc" for f in funcs):
+        return []
+    cand = [i for i, f in enumerate(funcs) if len(f["params"]) < 4]
+    if not cand:
+        return []
+    gi = rng.choice(cand)                                   # reads cc without a default of its own
+    hi = rng.choice(cand + [gi])                            # carries the explicit default of kk
+    funcs[gi] = _add_param(funcs[gi], "cc")
+    fallback = rng.random() < 0.5                           # kk has (another) signature default / none at all
+    funcs[hi] = _add_param(funcs[hi], "kk", sig="d_kk" if fallback else None, explicit="e_kk")
+    declarer = {"name": "dc", "outs": ["odc"], "params": [["cc", "cc"]], "sigd": {"cc": "d_cc"}, "defs": {}, "bound": {}}
+    if rng.random() < 0.3:                                  # the declarer may read a root argument as well
+        declarer["params"] = [["x", "x"], ["cc", "cc"]]
+    funcs.insert(rng.randint(0, len(funcs)), declarer)
+    qd = {"funcs": funcs}
+    g, h = next(f for f in funcs if any(c == "cc" for c, _ in f["params"]) and f["name"] != "dc"), \
+        next(f for f in funcs if any(c == "kk" for c, _ in f["params"]))
+    if "cc" in g["bound"] or "kk" in h["bound"]:
+        return []
+    outs = [o for o in pipegen.outputs_of(qd) if o != "odc"]
+    base = list(dict.fromkeys([rng.choice(g["outs"]), rng.choice(h["outs"])]))
+    s_sets = [base, list(dict.fromkeys(base + rng.sample(outs, min(len(outs), rng.randint(0, 2)))))]
+    cases = []
+    for S in s_sets:
+        I = [n for n in _needed_roots(qd, S) if n not in ("cc", "kk")]
+        inputs = [[n, "v_" + n] for n in I]
+        cases.append({"kind": "map", "p": qd, "inputs": inputs, "S": S, "auto": rng.random() < 0.5, "tag": "carried-default"})
+        cases.append({"kind": "sub", "p": qd, "I": I, "S": S, "tag": "carried-default"})
+    if "x" not in [c for c, _ in declarer["params"]]:       # no output_names: the declarer is not downstream of the inputs
+        I = [n for n in _needed_roots(qd, outs) if n not in ("cc", "kk")]
+        if I:
+            cases.append({"kind": "map", "p": qd, "inputs": [[n, "v_" + n] for n in I], "S": None, "auto": True,
+                          "tag": "carried-default"})
+    return cases
+
+
 def generate(rng, tier, mult):
     n_pipes = (30 if tier == "quick" else 500) * mult
     cases = []
@@ -274,6 +356,8 @@ def generate(rng, tier, mult):
                     cases.append({"kind": "map", "p": pd, "inputs": inputs, "S": None, "auto": True, "tag": tag})
         roots = pipegen.root_names(pd)
         cases += _two_run_cases(rng, pd, roots, outs)
+        if rng.random() < 0.5:
+            cases += _carried_default_cases(rng, pd)
         cases.append({"kind": "map", "p": pd, "inputs": [[n, "v_" + n] for n in roots], "S": None, "auto": False, "tag": "plain"})
         cases.append({"kind": "sub", "p": pd, "I": ["nope"], "S": [outs[0]], "tag": "unknown"})
         cases.append({"kind": "sub", "p": pd, "I": roots, "S": ["nope"], "tag": "unknown"})
